@@ -98,6 +98,11 @@ class Runner:
         if op[0] == 'clock':
             it.clock.time += op[1]
             return None
+        if op[0] == 'queue_internal':
+            # an InternalEvent instance handed to queue() from outside: it goes to the internal queue; nothing was *sent*
+            from sismic.model import InternalEvent
+            it.queue(InternalEvent(op[1], u=op[2]))
+            return None
         if op[0] == 'step':
             if self.log is not None:
                 del self.log[:]
@@ -143,3 +148,8 @@ def first_difference(a, b):
     if a[4] != b[4]:
         return 'final %r vs %r' % (a[4], b[4])
     return None
+
+
+def benign(err):
+    """Exceptions a run of a *generated* chart may legitimately end with (the generator does not avoid conflicts)."""
+    return type(err).__name__ in ('NonDeterminismError', 'ConflictingTransitionsError')
